@@ -189,6 +189,10 @@ def generate(rng, idx, tier):
                                                     'sort_dict_keys': rng.random() < 0.2,
                                                     # a finite depth that can never bind for <= 6 nodes: the finite-depth code path
                                                     'depth': rng.choice([None, None, 64, 100])}])
+            if set(kinds_w) <= set(KINDS) and rng.random() < 0.3:
+                # plain graphs only: a sequence limit that really cuts (the cut-off tail is not printed at all)
+                ops[-1][2]['max_seq_len'] = rng.choice([2, 3])
+                ops[-1][2]['sort_dict_keys'] = False
         elif k == 'abort' and rng.random() < 0.3:
             # a print that fails inside the bundled printers: max_seq_len=None (documented as 'no truncation')
             # makes them raise, or a Box printer returns None so the enclosing printer sees a ValueError
@@ -240,17 +244,22 @@ class MD(dict):
 
 
 SORT_KEYS = [False]     # sort_dict_keys setting of the print being modelled
+SEQ_LIMIT = [None]      # max_seq_len of the print being modelled (None: nothing is cut off)
 
 
 def _dict_keys(n):
     ks = list(n.keys())
     if SORT_KEYS[0] and not isinstance(n, collections.OrderedDict):
         ks.sort()
+    if type(n) is dict and SEQ_LIMIT[0] is not None:
+        ks = ks[:SEQ_LIMIT[0]]
     return ks
 
 
 def kids(n):
     n = _unwrap(n)
+    if type(n) in (list, tuple) and SEQ_LIMIT[0] is not None:
+        return list(n)[:SEQ_LIMIT[0]]
     if isinstance(n, (list, tuple, collections.deque)):
         return list(n)
     if isinstance(n, collections.ChainMap):
@@ -512,6 +521,7 @@ def execute(spec):
                 continue
             root = nodes[op[1] % len(nodes)]
             SORT_KEYS[0] = bool(k == 'print' and op[2].get('sort_dict_keys'))
+            SEQ_LIMIT[0] = op[2].get('max_seq_len') if k == 'print' else None
             try:
                 exp = expect(root, set(), [MAX_EXPECT])
             except OverflowError:
